@@ -179,6 +179,13 @@ def gen_struct_case(g, cid, opts=None):
             while order == list(range(len(mapped))):
                 r.shuffle(order)
             sc.flags.add("positional_permuted")
+            if g.chance(0.8):
+                # same leaf type everywhere: the mis-wired Into (finding F31) still compiles, so the From and into_existing
+                # conversions of the same program - which honour the index - stay checked
+                for f in mapped:
+                    f.ty = "i32"
+                    if f.desig == "as_type":
+                        f.desig = "rename"
         tf = [None] * len(mapped)
         for f, p in zip(mapped, order):
             t = TFld(p, f.ty)
